@@ -130,3 +130,46 @@ func c10EvictionScansEveryPartition(r *core.Run) {
 	}
 	r.Floor(rule, cnt, 1)
 }
+
+// c10LRUSampleUnfiltered: to make room at the bound, evictKeyWithLRU samples entries of the
+// fragment and evicts the least recently used one of the sample. Every ranged entry is a
+// candidate until the sample is full; an entry that is skipped for a reason of its own
+// (for instance "it is the key being written") leaves the sample empty when it is the only
+// entry of the fragment, and the Put fails with "nothing found to expire" — although Puts
+// must never fail because of a limit.
+func c10LRUSampleUnfiltered(r *core.Run) {
+	const rule = "lru-sample-unfiltered"
+	fn := r.Need(rule, dmapPkg+".(*DMap).evictKeyWithLRU")
+	if fn == nil {
+		return
+	}
+	cnt := 0
+	n := counter{}
+	for _, an := range fn.SSA.AnonFuncs {
+		core.Instrs(an, func(in ssa.Instruction) {
+			c, ok := in.(*ssa.Call)
+			if !ok {
+				return
+			}
+			if b, isB := c.Call.Value.(*ssa.Builtin); !isB || b.Name() != "append" {
+				return
+			}
+			cnt++
+			foreign := false
+			for _, cd := range core.Conditions(in.Block()) {
+				bin, isBin := cd.Val.(*ssa.BinOp)
+				if isBin && (core.LastField(bin.X) == "lruSamples" || core.LastField(bin.Y) == "lruSamples") {
+					continue
+				}
+				if isBin && (lenArg(bin.X) != nil || lenArg(bin.Y) != nil) {
+					continue // len(items) against the sample size
+				}
+				foreign = true
+			}
+			r.Check(!foreign, rule, n.next(fn.Name+" candidate collected"), site(r, instrPos(in)),
+				"every ranged entry is a candidate until the sample is full",
+				"an entry is left out of the LRU sample for a reason other than 'the sample is full': when it is the only entry of the fragment the sample is empty, nothing can be evicted and the Put fails at the bound")
+		})
+	}
+	r.Floor(rule, cnt, 1)
+}
